@@ -1267,11 +1267,15 @@ impl SparqlDatabase {
             term.to_string()
         } else if term.starts_with('<') && term.ends_with('>') {
             term[1..term.len() - 1].to_string()
-        } else if term.starts_with('"') && term.ends_with('"') {
+        } else if term.starts_with('"') {
             match decode_ntriples_literal(term) {
                 // escape-aware: `"a\"b"` is the literal a"b
                 Some((value, "")) => value,
-                _ => term[1..term.len() - 1].to_string(),
+                // datatype and language suffixes as the N-Triples loader reads them
+                Some((value, rest)) if rest.starts_with("^^") => value,
+                Some((value, rest)) if rest.starts_with('@') => format!("{value}{rest}"),
+                _ if term.len() >= 2 && term.ends_with('"') => term[1..term.len() - 1].to_string(),
+                _ => term.trim_matches('"').to_string(),
             }
         } else {
             term.trim_matches('"').to_string()
